@@ -513,6 +513,12 @@ func (e *Engine) call(caller *frame, callpos token.Pos, fn value, args []value) 
 }
 
 func (e *Engine) callSSA(caller *frame, callpos token.Pos, fn *ssa.Function, args []value, env []value) value {
+	return e.callSSAx(caller, callpos, fn, args, env, false)
+}
+
+// callSSAx: noExt interprets the SSA body even when an external exists (used
+// for std functions whose native stub cannot take symbolic arguments).
+func (e *Engine) callSSAx(caller *frame, callpos token.Pos, fn *ssa.Function, args []value, env []value, noExt bool) value {
 	e.depth++
 	defer func() { e.depth-- }()
 	if e.depth > e.MaxDepth {
@@ -533,7 +539,7 @@ func (e *Engine) callSSA(caller *frame, callpos token.Pos, fn *ssa.Function, arg
 			e.inited[fn.Pkg] = true
 		}
 		name := fn.String()
-		if ext := externals[name]; ext != nil {
+		if ext := externals[name]; ext != nil && !noExt {
 			e.noteFn("ext:" + name)
 			return ext(fr, args)
 		}
